@@ -794,6 +794,11 @@ impl KotoVm {
                             _ => KValue::Str(error.to_string().into()),
                         };
 
+                        // The failed instruction may have left the frame's registers in an
+                        // intermediate state (e.g. truncated or extended while preparing a call),
+                        // so reset them before writing to the recovery register.
+                        self.registers
+                            .resize(self.min_frame_registers, KValue::Null);
                         self.set_register(recover_register, catch_value);
                         self.set_ip(ip);
                     }
